@@ -13,25 +13,34 @@ From AV Require Import Base.Prelude Model.Match.
    Returns (completed options in reverse order, current option reversed, quoted, escaped, rest)
    where rest is line[idx:] : from the unquoted blank that ended the loop, or the last character
    when the loop ran to the end (idx keeps the last index). *)
-Fixpoint tok (s : text) (quoted escaped : bool) (cur : text) (acc : list text) (last : text)
+(* [keep] = true: the code since repair 2e10b73 - a backslash is dropped only in front of a double
+   quote, in front of anything else it is kept (option += ch if ch == QUOTE else BACKSLASH + ch);
+   keep = false: the code before, every backslash dropped (used by the _old refutation only). *)
+Fixpoint tok_gen (keep : bool) (s : text) (quoted escaped : bool) (cur : text) (acc : list text) (last : text)
   : list text * text * bool * bool * text :=
   match s with
   | [] => (acc, cur, quoted, escaped, last)
   | ch :: r =>
-      if escaped then tok r quoted false (ch :: cur) acc [ch]
-      else if ch =? 92 then tok r quoted true cur acc [ch]
-      else if ch =? 34 then tok r (negb quoted) false cur acc [ch]
-      else if quoted then tok r quoted false (ch :: cur) acc [ch]
+      if escaped then
+        tok_gen keep r quoted false (if keep && negb (ch =? 34) then ch :: 92 :: cur else ch :: cur) acc [ch]
+      else if ch =? 92 then tok_gen keep r quoted true cur acc [ch]
+      else if ch =? 34 then tok_gen keep r (negb quoted) false cur acc [ch]
+      else if quoted then tok_gen keep r quoted false (ch :: cur) acc [ch]
       else if (ch =? 32) || (ch =? 9) then (acc, cur, false, false, s)
-      else if ch =? 44 then tok r quoted false [] (rev cur :: acc) [ch]
-      else tok r quoted false (ch :: cur) acc [ch]
+      else if ch =? 44 then tok_gen keep r quoted false [] (rev cur :: acc) [ch]
+      else tok_gen keep r quoted false (ch :: cur) acc [ch]
   end.
+
+Definition tok := tok_gen true.
 
 (* raw option strings handed to _add_option (in order), and the text after the options;
    None = "Unbalanced quote" / "Unbalanced backslash" *)
-Definition tokenize (line : text) : option (list text * text) :=
-  let '(acc, cur, quoted, escaped, rest) := tok line false false [] [] [] in
+Definition tokenize_gen (keep : bool) (line : text) : option (list text * text) :=
+  let '(acc, cur, quoted, escaped, rest) := tok_gen keep line false false [] [] [] in
   if quoted || escaped then None else Some (rev (rev cur :: acc), strip rest).
+
+Definition tokenize := tokenize_gen true.
+Definition tokenize_old := tokenize_gen false.
 
 (* ---- option values ------------------------------------------------------------------------------ *)
 Inductive oval :=
@@ -129,14 +138,19 @@ Definition parse_permitopen (v : text) : option (text * option Z) :=
       else match py_int p with Some n => Some (h', Some n) | None => None end
   end.
 
+(* str.lower() on ASCII letters (non-ASCII upper-case letters in option keywords are not modelled) *)
+Definition lower (s : text) : text := map (fun c => if (65 <=? c) && (c <=? 90) then c + 32 else c) s.
+
 (* OptionsParser._add_option.  [handlers] = true for _SSHAuthorizedKeyEntry, false for the bare
-   OptionsParser (every name=value is collected in a list). None = an exception. *)
-Definition add_option (handlers : bool) (m : optmap) (o : text) : option optmap :=
+   OptionsParser (every name=value is collected in a list). None = an exception.
+   [ci] = true: keywords are lower-cased (repair c342bf5); ci = false is the code before. *)
+Definition add_option_gen (ci : bool) (handlers : bool) (m : optmap) (o : text) : option optmap :=
   if starts_with 61 o then None
   else
     match split_first 61 o with
-    | None => Some (opt_set m o VTrue)
-    | Some (name, value) =>
+    | None => Some (opt_set m (if ci then lower o else o) VTrue)
+    | Some (name0, value) =>
+        let name := if ci then lower name0 else name0 in
         if handlers && zlist_eqb name n_command then Some (opt_set m name (VStr value))
         else if handlers && zlist_eqb name n_environment then
           if starts_with 61 value then None
@@ -180,6 +194,9 @@ Definition add_option (handlers : bool) (m : optmap) (o : text) : option optmap 
           | Some _ => None
           end
     end.
+
+Definition add_option := add_option_gen true.
+Definition add_option_old := add_option_gen false.
 
 Fixpoint add_options (handlers : bool) (m : optmap) (os : list text) : option optmap :=
   match os with
